@@ -79,8 +79,10 @@ def gen_ops(rng: random.Random, n: int, names=NAMES, allow_iter: bool = True) ->
             return ('rem', rng.random() < 0.5)
         if r < 0.85:
             return ('pop', _key(rng))
-        if r < 0.93:
+        if r < 0.90:
             return ('clear',)
+        if r < 0.95:
+            return ('spawn_like',)
         return ('uniq', rng.choice(names))
 
     while len(ops) < n:
@@ -266,6 +268,12 @@ CORPUS = [
     [('new', 0, [('ClassName', 'Ab')]), ('add', 0, 1), ('set', 0, 1, 'classname', 'a')],
     [('create', 0, 'a', []), ('create', 0, 'a1', [('targetname', 'A')])],
     [('create', 0, 'a', []), ('probe', 0, 'target', 'a')],
+    [('create', 0, 'a', []), ('create', 0, 'A', [('targetname', 'ab')]), ('create', 0, 'a', []),
+     ('iter', 0, 'class', 'a', ('spawn_like',)), ('iter', 0, 'target', 'ab', ('spawn_like',)),
+     ('iter', 0, 'class', 'a', ('rem', True)), ('iter', 0, 'target', None, ('set', 'targetname', 'Ab'))],
+    [('create', 0, 'a', [('targetname', 'a')]), ('create', 0, 'a', [('targetname', 'A')]),
+     ('iter', 0, 'target', 'a', ('uniq', 'a')), ('iter', 0, 'class', 'a', ('set', 'classname', 'A')),
+     ('iter', 0, 'class', 'a', ('clear',))],
     [('create', 0, 'ab', []), ('probe', 0, 'target', 'Ab'), ('probe', 0, 'class', 'AB'), ('probe', 0, 'target', None)],
 ]
 
@@ -339,6 +347,21 @@ Fixpoint first_bad (n : nat) (steps : list (wop * nat * exp)) (w : list mstate) 
       end
   end.
 Definition w2 : list mstate := [init; init].
+(* an iteration of by_class[k] / by_target[k] whose loop body ran the flat steps after position [pos]:
+   the yields must be the snapshot (any order) followed by the late additions (any order) *)
+Definition sort_nats (l : list nat) : list nat := foldr ins_nat [] l.
+Definition iter_ok (fl : list wop) (pos m : nat) (cls : bool) (kc : str) (kt : option str) (ys : list nat) : bool :=
+  let w0 := wrun ascii_fold (take (S pos) fl) w2 in
+  let getset (w : list mstate) : gset nat :=
+    match w !! m with
+    | Some st => if cls then ix_get (by_class st) kc else ix_get (by_target st) kt
+    | None => ∅
+    end in
+  let s0 := getset w0 in
+  let n0 := size s0 in
+  let w1 := wrun ascii_fold (take n0 (drop (S pos) fl)) w0 in
+  eqb_ln (sort_nats (take n0 ys)) (sorted_elems s0)
+  && eqb_ln (sort_nats (drop n0 ys)) (sorted_elems (getset w1 ∖ s0)).
 Definition sq (s : list nat) (q : str) (st : mstate) : bool := eqb_ln (sorted_elems (search ascii_fold q st)) s.
 """
 
@@ -423,20 +446,25 @@ def observed_map(w: World, op) -> int:
     return op[1]
 
 
-def run_case(ops) -> tuple[list, list]:
-    """Run on the implementation; returns ([(flat_op, observed_map, err, obs)], [(map, query, sorted result)])."""
+def run_case(ops) -> tuple[list, list, list]:
+    """Run on the implementation; returns ([(flat_op, observed_map, err, obs)], [(map, query, sorted result)],
+    [(position of the probe step, map, which, key, [entities yielded])] for every index iteration)."""
     w = World(2)
     steps = []
+    iters = []
     for op in ops:
+        pos = len(steps)
         for flat, err in w.steps(op):
             m = observed_map(w, flat)
             steps.append((flat, m, err, w.observe(m)))
+        if op[0] == 'iter' and op[2] in ('class', 'target') and not w.iter_truncated:
+            iters.append((pos, op[1], op[2], op[3], list(w.iter_yields)))
     queries = []
     for m in range(len(w.maps)):
         for q in QUERIES:
             got = sorted({w.eid(m, e) for e in w.maps[m].search(q)})
             queries.append((m, q, got))
-    return steps, queries
+    return steps, queries, iters
 
 
 PRE_SHAPES = r"""
@@ -455,8 +483,11 @@ def corr(ck: Ck, escalate: bool = False, shapes: bool = False) -> None:
     while len(seqs) < n:
         seqs.append(gen_ops(ck.rng, ck.rng.choice([3, 6, 12, 25, 40])))
     for ops in seqs:
-        steps, queries = run_case(ops)
-        cases.append((ops, steps, queries))
+        steps, queries, iters = run_case(ops)
+        cases.append((ops, steps, queries, iters))
+        ck.count('correspondence_index_iterations', len(iters))
+        for it in iters:
+            ck.hist('corr_iter_yields', len(it[4]))
         ck.count('correspondence_sequences')
         ck.count('correspondence_steps', len(steps))
         ck.hist('corr_len', len(steps) // 10 * 10)
@@ -471,6 +502,7 @@ def corr(ck: Ck, escalate: bool = False, shapes: bool = False) -> None:
     ck.sample({'correspondence_ops': cases[len(CORPUS)][0][:6], 'impl_observation_after_last_step': cases[len(CORPUS)][1][-1][3] if cases[len(CORPUS)][1] else None})
     bad: list[tuple[int, Any]] = []
     bad_q: list[tuple[int, Any]] = []
+    bad_i: list[tuple[int, Any]] = []
     B = min(120, max(40, -(-len(cases) // 6)))     # quick: 6 parallel batches
     from concurrent.futures import ThreadPoolExecutor
     from harness.common import parse_coq_nested
@@ -480,7 +512,8 @@ def corr(ck: Ck, escalate: bool = False, shapes: bool = False) -> None:
         tab: dict[str, str] = {}
         lits = []
         qlits = []
-        for ops, steps, queries in part:
+        ilits = []
+        for ops, steps, queries, iters in part:
             lits.append('[' + '; '.join(f'({coq_wop(tab, f)}, {m}, {coq_exp(tab, err, obs)})' for f, m, err, obs in steps) + ']')
             flat_ops = '[' + '; '.join(coq_wop(tab, f) for f, _m, _e, _o in steps) + ']'
             qs = ' && '.join(f'match w !! {m} with Some st => sq {_c_nats(r)} {_strtab(tab, q)} st | None => false end'
@@ -489,9 +522,19 @@ def corr(ck: Ck, escalate: bool = False, shapes: bool = False) -> None:
                 qs += ''.join(f' && match w !! {m} with Some st => sq2 {_c_nats(r)} {_strtab(tab, q)} st | None => false end'
                               for m, q, r in queries if q in QUERIES_SH)
             qlits.append(f'(let w := wrun ascii_fold {flat_ops} w2 in {qs})')
+            if iters:
+                chk = ' && '.join(
+                    f'iter_ok fl {pos} {m} {"true" if which == "class" else "false"} '
+                    f'{_strtab(tab, key if which == "class" else "")} '
+                    f'{("None" if key is None else "(Some " + _strtab(tab, key) + ")") if which == "target" else "None"} {_c_nats(ys)}'
+                    for pos, m, which, key, ys in iters)
+                ilits.append(f'(let fl := {flat_ops} in {chk})')
+            else:
+                ilits.append('true')
         pre = PRE + (PRE_SHAPES if shapes else '') + ''.join(f'Definition {name} : str := {_coq_str(s)}.\n' for s, name in tab.items())
         exprs = ['[' + '; '.join(f'first_bad 0 {l} w2' for l in lits) + ']',
-                 '[' + '; '.join(qlits) + ']']
+                 '[' + '; '.join(qlits) + ']',
+                 '[' + '; '.join(ilits) + ']']
         imports = IMPORTS + (['SV.SM.IndexShapes', 'SV.Gen.IndexShapes_gen'] if shapes else [])
         return lo, ck.coq_eval(imports, exprs, name=f'index{lo}', preamble=pre, timeout=900)
 
@@ -510,6 +553,9 @@ def corr(ck: Ck, escalate: bool = False, shapes: bool = False) -> None:
         for i, r in enumerate(resq):
             if r is not True:
                 bad_q.append((lo + i, None))
+        for i, r in enumerate(parse_coq_nested(vals[2])):
+            if r is not True:
+                bad_i.append((lo + i, None))
     ck.obligation('correspondence:index_ops', not bad,
                   f'{len(cases)} histories / {sum(len(c[1]) for c in cases)} steps: after every step error code, entity list, '
                   f'spawn, all key lists, by_class and by_target of model (vm_compute) vs implementation: {len(bad)} disagreements')
@@ -517,6 +563,14 @@ def corr(ck: Ck, escalate: bool = False, shapes: bool = False) -> None:
                   f'{len(cases)} final worlds x {len(QUERIES)} queries per map, model search'
                   + (f' and, for {len(QUERIES_SH)} of them, search_sh gen_search_shape (VMF.search as written)' if shapes else '')
                   + f' vs VMF.search: {len(bad_q)} disagreements')
+    n_it = sum(len(c[3]) for c in cases)
+    ck.obligation('correspondence:index_iteration', not bad_i,
+                  f'{n_it} iterations of by_class[k] / by_target[k] with a mutating loop body: the entities the implementation '
+                  f'yields are a permutation of the snapshot followed by a permutation of the late additions, as computed '
+                  f'by the model (CopySet.__iter__ as [irun copyset_iter_today] for some order): {len(bad_i)} disagreements')
+    if bad_i:
+        ck.tie_broken.append('correspondence index iteration (CopySet.__iter__ trace vs SM/IndexShapes.v irun)')
+        ck.extra['iteration_disagreement'] = {'ops': cases[bad_i[0][0]][0], 'iterations': cases[bad_i[0][0]][3]}
     if bad:
         i, step = min(bad, key=lambda b: len(cases[b[0]][1]))
         ck.tie_broken.append('correspondence index operations (SM/IndexModel.v wstep vs real VMF/Entity objects)')
@@ -571,6 +625,7 @@ SHAPE_OBLIGATIONS = {
     'search_scans_a_snapshot_of_the_items': 'gen_search_scans_snapshot',
     # CopySet.__iter__ (theorem c07_copyset_iteration_total)
     'copyset_iter_never_iterates_the_live_set': 'iprog_never_live gen_copyset_iter',
+    'copyset_iter_is_snapshot_then_late_additions': 'iprog_is_today gen_copyset_iter',
 }
 
 
